@@ -236,6 +236,10 @@ func propC08(c *Ctx) {
 	}
 	rbo := c.Rule("child-bc-own", "every Bytecode header stored into a VM is that VM's own storage (fresh, the caller's program, or its previous header), never a package-level or otherwise shared value", 2)
 	ruleChildBytecodeOwn(c, rbo, vf)
+	rcs := c.Rule("copy-stored", "in the Copy methods of Array and Map the copy made of a Copier element is what is stored into the new container (builtin-module values are private per VM through these copies)", 2)
+	ruleCopyStored(c, rcs)
+	ricw := c.Rule("init-captured-write", "no closure stores to a variable captured from a function that runs only at package initialisation (such a variable is shared by every VM calling the library function)", 1)
+	ruleInitCapturedWrite(c, ricw)
 }
 
 func rootGlobal(addr ssa.Value) *ssa.Global {
@@ -313,6 +317,10 @@ func propC12(c *Ctx) {
 		}
 	}
 
+	rcs2 := c.Rule("copy-stored", "in the Copy methods of Array and Map the copy made of a Copier element is stored into the new container: a module value copied for a VM shares no nested container with the Bytecode constant", 2)
+	ruleCopyStored(c, rcs2)
+	rmn := c.Rule("module-name-one", "one value names the module in the store lookup, the registration, the module-map fork and the compilation of the module source (one file is one module; positions name the file they lie in)", 1)
+	ruleModuleNameOne(c, rmn)
 	rfa := c.Rule("fixup-always", "every decoding entry point of package encoder that receives the module map reaches the module fix-up before it returns success: unknown modules are refused at load time", 2)
 	ruleFixupAlways(c, rfa)
 
